@@ -58,8 +58,9 @@ Live(p, i)  == store[p][i].has /\ ~Tomb(p, i)
 
 \* what a quiescent index shows for an entry: live objects that are not bare roots. A bare acl root is
 \* indexed by FillDiff (no common snapshot, not derived) and never by UpdateHeads; the acl exists
-\* before the component starts, so FillDiff has always seen it.
-ViewE(e, i) == IF e.has /\ e.del = "none" /\ (e.hd # {} \/ i \in Acl) THEN e.hd ELSE Absent
+\* before the component starts, so FillDiff has always seen it. The head of the key-value store is the
+\* hash of its own index, never its id: it is always indexed.
+ViewE(e, i) == IF e.has /\ e.del = "none" /\ (e.hd # {} \/ i \in Special) THEN e.hd ELSE Absent
 Fill(p)     == [i \in Ids |-> ViewE(store[p][i], i)]
 
 Upd(i, e) == [id |-> i, hd |-> e.hd, del |-> e.del]
@@ -139,7 +140,7 @@ DeleteFinish(p, i) ==
 \* the deletion state is consulted now)
 ApplyTo(ix, p, u) ==
     IF u.del # "none" THEN [ix EXCEPT ![u.id] = Absent]
-    ELSE IF Tomb(p, u.id) \/ u.hd = {} THEN ix
+    ELSE IF Tomb(p, u.id) \/ (u.hd = {} /\ u.id \notin Kv) THEN ix
     ELSE [ix EXCEPT ![u.id] = u.hd]
 IndexApply(p) ==
     /\ pend[p] # <<>>
